@@ -115,6 +115,47 @@ class Facts_:
         self.lt = set()     # (key(a), key(b)) known a < b
         self.ge = set()     # (key(a), key(b)) known a >= b
         self.gt0 = set()    # key(a) known a > 0
+        self.boundary = set()  # (key(text), key(offset)) known is_char_boundary
+        # staleness of length observations: a `len()` / `remaining()` call is an observation made when it is *evaluated*
+        # (its position in the trace), not when a condition later mentions its let-bound result
+        self.ver = {}       # key(container) -> (bytes consumed by fixed-size reads so far, epoch bumped by any other mutation)
+        self.obs = {}       # id(length-query term) -> version of its container when the call was evaluated
+
+    def version(self, k):
+        return self.ver.get(k, (0, 0))
+
+    def consume(self, k, n):
+        c, e = self.version(k)
+        self.ver[k] = (c + n, e)
+
+    def mutate(self, k):
+        """Unknown change of container k: every bound and every order fact about its length is dropped."""
+        c, e = self.version(k)
+        self.ver[k] = (c, e + 1)
+        if k in self.lb:
+            self.lb[k] = (0, set())
+        tag = "(%s)" % k
+        self.lt = {(a, b) for a, b in self.lt if not (a.endswith(tag) or b.endswith(tag))}
+        self.ge = {(a, b) for a, b in self.ge if not (a.endswith(tag) or b.endswith(tag))}
+
+    @staticmethod
+    def _oid(t):
+        # the trace entry and the term in a condition are different tuples around the same HIR call node
+        return id(t[3]) if len(t) > 3 and isinstance(t[3], dict) else id(t)
+
+    def observe(self, t):
+        self.obs[self._oid(t)] = self.version(key(t[2][0]))
+
+    def staleness(self, x):
+        """(bytes consumed since the observation | None if the container changed in an unknown way) for a length-query term."""
+        o = self.obs.get(self._oid(x))
+        if o is None:
+            return 0
+        c, e = self.version(key(x[2][0]))
+        return None if e != o[1] else c - o[0]
+
+    def any_stale(self, t):
+        return any(is_call(x) and x[1] in LEN_Q and self.staleness(x) != 0 for x in subterms(t))
 
     def bound(self, k):
         return self.lb.get(k, (0, set()))
@@ -139,6 +180,9 @@ def apply_cond(fx, c):
         if is_call(t, "bytes::Buf::has_remaining") and pol:
             fx.raise_to(key(t[2][0]), 1)
             return
+        if is_call(t) and t[1].endswith("::is_char_boundary") and pol and len(t[2]) == 2:
+            fx.boundary.add((key(t[2][0]), key(t[2][1])))
+            return
         if is_call(t) and t[1].endswith(("::is_some", "::is_ok")) and pol:
             fx.some.add(key(t[2][0]))
             return
@@ -151,10 +195,21 @@ def apply_cond(fx, c):
         if isinstance(t, tuple) and t[0] == "bin" and t[1] in ("Eq", "Ne", "Lt", "Le", "Gt", "Ge"):
             op, a, b = t[1], strip(t[2]), strip(t[3])
             flip = {"Lt": "Gt", "Le": "Ge", "Gt": "Lt", "Ge": "Le", "Eq": "Eq", "Ne": "Ne"}
+            def fresh_len(x):
+                # `observed - k` (or a cast of it) where exactly k bytes were read since the observation is the current length
+                if isinstance(x, tuple) and x[0] == "bin" and x[1] == "Sub":
+                    l, r = strip(x[2]), strip(x[3])
+                    if is_call(l) and l[1] in LEN_Q and r[0] == "lit" and isinstance(r[1], int) and fx.staleness(l) == r[1] and r[1] > 0:
+                        return ("call", l[1], l[2])     # a fresh observation of the same container (no node: not in fx.obs)
+                return x
+            a, b = fresh_len(a), fresh_len(b)
             for (x, y, o) in ((a, b, op), (b, a, flip[op])):
                 # x is a length query on container K:  len(K) o y
                 if is_call(x) and x[1] in LEN_Q:
                     K = key(x[2][0])
+                    used = fx.staleness(x)    # bytes read from K between the observation and this test
+                    if used is None:
+                        continue              # the container changed since it was measured: the test says nothing about it now
                     lower = None          # len >= y (+1)
                     if (o == "Eq" and pol) or (o == "Ne" and not pol) or (o == "Ge" and pol) or (o == "Lt" and not pol):
                         lower = 0
@@ -162,10 +217,13 @@ def apply_cond(fx, c):
                         lower = 1
                     if lower is not None:
                         if y[0] == "lit" and isinstance(y[1], int):
-                            fx.raise_to(K, y[1] + lower)
-                        else:
+                            fx.raise_to(K, max(y[1] + lower - used, 0))
+                        elif used == 0:
                             fx.raise_to(K, 0, key(y))
-            # generic order facts
+                        # else: a stale observation compared with a symbolic size proves nothing about what is left now
+            # generic order facts (not from stale length observations)
+            if fx.any_stale(a) or fx.any_stale(b):
+                return
             ka, kb = key(a), key(b)
             if (op == "Lt" and pol) or (op == "Ge" and not pol):
                 fx.lt.add((ka, kb))
@@ -212,6 +270,9 @@ def replay(run, F, body, p, T, counts):
         name, args = t[1], t[2]
         node = t[3] if len(t) > 3 else None
         pc = " && ".join(cshow(c) for c in p.conds[:ci])[-260:]
+        if name in LEN_Q and args:
+            fx.observe(t)
+            continue
         if name in T["buf_fixed"]:
             K = key(args[0])
             need = T["buf_fixed"][name]
@@ -219,6 +280,7 @@ def replay(run, F, body, p, T, counts):
             ob("buffer-read", name.split("::")[-1], c0 >= need,
                "%s needs %d byte(s) of %s but only >= %d are established on this path [%s] (a shorter value panics inside `bytes`)" % (name, need, K, c0, pc), node)
             fx.lb[K] = (max(c0 - need, 0), set())
+            fx.consume(K, need)
             continue
         if name in T["buf_sym"]:
             K = key(args[0])
@@ -228,7 +290,7 @@ def replay(run, F, body, p, T, counts):
             ok = v is not None and ((v[0] == "lit" and isinstance(v[1], int) and v[1] <= c0) or key(v) in s0)
             ob("buffer-advance", name.split("::")[-1], ok,
                "%s(%s) needs remaining(%s) >= %s; established: >= %d and >= %s [%s]" % (name, tshow(v)[:40], K, tshow(v)[:40], c0, sorted(s0), pc), node)
-            fx.lb[K] = (0, set())
+            fx.mutate(K)
             continue
         if name == "<index>":
             base, idx = args[0], simp(args[1])
@@ -246,6 +308,20 @@ def replay(run, F, body, p, T, counts):
                         why.append("%s=%s" % (bnd, tshow(v)[:40]))
                 ob("slice", "slice of %s" % K[:30], ok, "range %s of %s is not shown to lie within its length (established: >= %d and >= %s) [%s]" % (
                     ", ".join(why), K, c0, sorted(s0), pc), node)
+                # text: a byte offset inside a multi-byte character panics as well (decoded text is attacker-chosen, U+FFFD is 3 bytes)
+                bty = (((node or {}).get("b") or {}).get("ty") or "").replace("&mut ", "").replace("&", "").strip()
+                if bty in ("str", "std::string::String") or bty.startswith("std::borrow::Cow<'_, str"):
+                    for bnd in ("start", "end"):
+                        if bnd not in f:
+                            continue
+                        v = strip(f[bnd])
+                        kv = key(v)
+                        fine = (v[0] == "lit" and v[1] == 0) or (is_call(v) and v[1] in LEN_Q and key(v[2][0]) == K) or (K, kv) in fx.boundary or \
+                            (is_call(v) and v[1].split("::")[-1] in ("len_utf8", "floor_char_boundary", "ceil_char_boundary")) or \
+                            any(is_call(x) and x[1].split("::")[-1] in ("find", "rfind", "char_indices", "floor_char_boundary", "ceil_char_boundary", "position", "len") for x in subterms(v))
+                        ob("char-boundary", "text slice of %s at %s" % (K[:30], bnd), fine,
+                           "%s of the byte range into text %s is %s: not known to fall on a character boundary (accepted: 0, len(), a guard `is_char_boundary`, an offset "
+                           "obtained from find / char_indices / floor_char_boundary); slicing inside a multi-byte character panics [%s]" % (bnd, K, tshow(v)[:40], pc), node)
             else:
                 k_i = key(idx)
                 ok = (idx[0] == "lit" and isinstance(idx[1], int) and idx[1] < c0) or any(a == k_i and b.endswith("(%s)" % K) for a, b in fx.lt)
@@ -298,9 +374,7 @@ def replay(run, F, body, p, T, counts):
         # a tracked buffer handed to an unknown callee loses its bound
         if name not in T["buf_queries"] and not name.startswith("<"):
             for a in args:
-                K = key(a)
-                if K in fx.lb:
-                    fx.lb[K] = (0, set())
+                fx.mutate(key(a))
     return
 
 
